@@ -1,1 +1,447 @@
-//! c14 harnesses
+//! C14 — shared-memory data structures are position independent.
+//!
+//! Metamorphic harness: the structure is built in heap block A, J symbolic operations are
+//! applied, the block is copied byte-for-byte to a fresh block B, A is overwritten with 0xFF and
+//! freed (CBMC reports any later dereference into A; natively a stale pointer reads garbage),
+//! the remaining operations run on B and, in lock-step, on a twin that stays where it is.  All
+//! observable results must agree.  J is symbolic: the relocation point ranges over the history.
+
+use crate::common::*;
+use core::alloc::Layout;
+use core::mem::MaybeUninit;
+use core::ptr::NonNull;
+use iceoryx2_bb_container::flatmap::FixedSizeFlatMap;
+use iceoryx2_bb_container::queue::FixedSizeQueue;
+use iceoryx2_bb_container::slotmap::{FixedSizeSlotMap, SlotMapKey};
+use iceoryx2_bb_container::string::{StaticString, String as IoxString};
+use iceoryx2_bb_container::vector::*;
+use iceoryx2_bb_elementary::bump_allocator::BumpAllocator;
+use iceoryx2_bb_elementary::relocatable_pointer::RelocatablePointer;
+use iceoryx2_bb_elementary_traits::pointer::Pointer;
+use iceoryx2_bb_elementary_traits::relocatable_container::RelocatableContainer;
+use iceoryx2_bb_lock_free::mpmc::bit_set::FixedSizeBitSet;
+use iceoryx2_bb_lock_free::mpmc::container::{FixedSizeContainer, ContainerHandle};
+use iceoryx2_bb_lock_free::mpmc::counting_bit_set::FixedSizeCountingBitSet;
+use iceoryx2_bb_lock_free::mpmc::robust_unique_index_set::{OwnerId, StaticRobustUniqueIndexSet};
+use iceoryx2_bb_lock_free::mpmc::unique_index_set::FixedSizeUniqueIndexSet;
+use iceoryx2_bb_lock_free::mpmc::unique_index_set_enums::ReleaseMode;
+use iceoryx2_bb_lock_free::spsc::index_queue::FixedSizeIndexQueue;
+use iceoryx2_bb_lock_free::spsc::safely_overflowing_index_queue::FixedSizeSafelyOverflowingIndexQueue;
+
+/// A relocatable structure under test: `op` applies operation `code` with argument `arg` and
+/// returns everything observable about the outcome folded into a u64.
+pub trait Reloc: Sized {
+    /// construct in place (the constructors return by value, so this already moves the object)
+    unsafe fn mk(at: *mut Self);
+    fn op(&mut self, code: u8, arg: u64) -> u64;
+    /// an observation of the whole content that does not depend on addresses
+    fn observe(&mut self) -> u64;
+}
+
+pub const NONE: u64 = 0xFFFF_FFFF_0000_0000;
+
+pub fn relocation<T: Reloc, const K: usize>() {
+    let layout = Layout::new::<T>();
+    unsafe {
+        let a = alloc::alloc::alloc(layout) as *mut T;
+        T::mk(a);
+        let mut twin_mem = MaybeUninit::<T>::uninit();
+        T::mk(twin_mem.as_mut_ptr());
+        let twin = &mut *twin_mem.as_mut_ptr();
+        let j: usize = kani::any();
+        kani::assume(j <= K);
+        let mut cur = a;
+        let mut moved = false;
+        let mut i = 0;
+        while i <= K {
+            if i == j {
+                let b = alloc::alloc::alloc(layout) as *mut T;
+                core::ptr::copy_nonoverlapping(cur as *const u8, b as *mut u8, layout.size());
+                core::ptr::write_bytes(cur as *mut u8, 0xFF, layout.size());
+                alloc::alloc::dealloc(cur as *mut u8, layout);
+                cur = b;
+                moved = true;
+            }
+            if i < K {
+                let code: u8 = kani::any();
+                let arg: u64 = kani::any();
+                let r1 = (*cur).op(code, arg);
+                let r2 = twin.op(code, arg);
+                assert!(r1 == r2, "c14: relocated structure behaves differently from the one that stayed");
+            }
+            i += 1;
+        }
+        assert!(moved);
+        assert!((*cur).observe() == twin.observe(), "c14: content differs after relocation");
+        core::ptr::drop_in_place(cur);
+        alloc::alloc::dealloc(cur as *mut u8, layout);
+        core::ptr::drop_in_place(twin as *mut T);
+        kani::cover!(j > 0 && j < K, "relocated in the middle of the history");
+    }
+}
+
+fn opt(v: Option<u64>) -> u64 {
+    match v {
+        Some(x) => x & 0xFFFF_FFFF,
+        None => NONE,
+    }
+}
+
+// ---- spsc index queues ---------------------------------------------------------------------
+
+impl Reloc for FixedSizeIndexQueue<2> {
+    unsafe fn mk(at: *mut Self) { at.write(Self::new()) }
+    fn op(&mut self, code: u8, arg: u64) -> u64 {
+        if code & 1 == 0 { unsafe { self.push(arg) as u64 } } else { opt(unsafe { self.pop() }) }
+    }
+    fn observe(&mut self) -> u64 {
+        let l = self.len() as u64;
+        let a = opt(unsafe { self.pop() });
+        let b = opt(unsafe { self.pop() });
+        l ^ (a << 8) ^ (b << 24) ^ ((self.is_empty() as u64) << 60)
+    }
+}
+
+impl Reloc for FixedSizeSafelyOverflowingIndexQueue<2> {
+    unsafe fn mk(at: *mut Self) { at.write(Self::new()) }
+    fn op(&mut self, code: u8, arg: u64) -> u64 {
+        if code & 1 == 0 { opt(unsafe { self.push(arg) }) ^ 1 } else { opt(unsafe { self.pop() }) }
+    }
+    fn observe(&mut self) -> u64 {
+        let l = self.len() as u64;
+        let a = opt(unsafe { self.pop() });
+        let b = opt(unsafe { self.pop() });
+        l ^ (a << 8) ^ (b << 24)
+    }
+}
+
+// ---- index sets ------------------------------------------------------------------------------
+
+#[repr(C)]
+pub struct UisUnderTest {
+    s: FixedSizeUniqueIndexSet<3>,
+    held: u8,
+}
+
+impl Reloc for UisUnderTest {
+    unsafe fn mk(at: *mut Self) { at.write(UisUnderTest { s: FixedSizeUniqueIndexSet::new(), held: 0 }) }
+    fn op(&mut self, code: u8, arg: u64) -> u64 {
+        if code & 1 == 0 {
+            match unsafe { self.s.acquire_raw_index() } {
+                Ok(i) => {
+                    assert!(i < 3 && (self.held >> i) & 1 == 0, "c14: index handed out twice after relocation");
+                    self.held |= 1 << i;
+                    i as u64
+                }
+                Err(_) => NONE,
+            }
+        } else {
+            let i = (arg % 3) as u32;
+            if (self.held >> i) & 1 == 1 {
+                self.held &= !(1 << i);
+                unsafe { self.s.release_raw_index(i, ReleaseMode::Default) as u64 + 100 }
+            } else {
+                77
+            }
+        }
+    }
+    fn observe(&mut self) -> u64 {
+        let l = self.s.borrowed_indices() as u64;
+        let a = match unsafe { self.s.acquire_raw_index() } { Ok(i) => i as u64, Err(_) => NONE };
+        l ^ (a << 8) ^ ((self.held as u64) << 40)
+    }
+}
+
+impl Reloc for StaticRobustUniqueIndexSet<2> {
+    unsafe fn mk(at: *mut Self) { at.write(Self::new()) }
+    fn op(&mut self, code: u8, arg: u64) -> u64 {
+        let owner = OwnerId::new(1 + (arg & 1)).unwrap();
+        if code & 1 == 0 {
+            match self.acquire(owner) { Ok(i) => i as u64, Err(_) => NONE }
+        } else {
+            match unsafe { self.release(((arg >> 1) & 1) as usize, owner, ReleaseMode::Default) } {
+                Ok(_) => 1,
+                Err(_) => 2,
+            }
+        }
+    }
+    fn observe(&mut self) -> u64 {
+        self.borrowed_indices() as u64 ^ ((self.is_locked() as u64) << 8)
+    }
+}
+
+// ---- bit sets --------------------------------------------------------------------------------
+
+impl Reloc for FixedSizeBitSet<10> {
+    unsafe fn mk(at: *mut Self) { at.write(Self::new()) }
+    fn op(&mut self, code: u8, arg: u64) -> u64 {
+        if code & 1 == 0 { self.set((arg % 10) as usize) as u64 } else { opt(self.reset_next().map(|v| v as u64)) }
+    }
+    fn observe(&mut self) -> u64 {
+        let mut acc = 0u64;
+        self.reset_all(|i| acc |= 1 << i);
+        acc
+    }
+}
+
+impl Reloc for FixedSizeCountingBitSet<3> {
+    unsafe fn mk(at: *mut Self) { at.write(Self::new()) }
+    fn op(&mut self, _code: u8, arg: u64) -> u64 {
+        self.set((arg % 3) as usize)
+    }
+    fn observe(&mut self) -> u64 {
+        let mut acc = 0u64;
+        self.reset_all(|s| acc += (s.count() + 1) << (8 * s.bit()));
+        acc
+    }
+}
+
+// ---- registry container (add / remove; snapshots are process local by design) ----------------
+
+pub struct ContainerUnderTest {
+    c: FixedSizeContainer<u32, 2>,
+}
+
+impl Reloc for ContainerUnderTest {
+    unsafe fn mk(at: *mut Self) { at.write(ContainerUnderTest { c: FixedSizeContainer::new() }) }
+    fn op(&mut self, code: u8, arg: u64) -> u64 {
+        let owner = OwnerId::new(5).unwrap();
+        if code & 1 == 0 {
+            match self.c.add(arg as u32, owner) {
+                Ok((p, h)) => {
+                    let v = unsafe { *p };
+                    assert!(v == arg as u32, "c14: container slot does not hold the added value");
+                    h.index() as u64
+                }
+                Err(_) => NONE,
+            }
+        } else {
+            77 + self.c.len() as u64
+        }
+    }
+    fn observe(&mut self) -> u64 {
+        self.c.len() as u64 ^ ((self.c.is_empty() as u64) << 8)
+    }
+}
+
+// ---- bb-container: vector, queue, string, slot map, flat map ---------------------------------
+
+impl Reloc for StaticVec<u8, 3> {
+    unsafe fn mk(at: *mut Self) { at.write(Self::new()) }
+    fn op(&mut self, code: u8, arg: u64) -> u64 {
+        match code & 3 {
+            0 => self.push(arg as u8).is_ok() as u64,
+            1 => opt(self.pop().map(|v| v as u64)),
+            2 => self.insert((arg >> 8) as usize & 3, arg as u8).is_ok() as u64,
+            _ => opt(self.remove((arg >> 8) as usize & 3).map(|v| v as u64)),
+        }
+    }
+    fn observe(&mut self) -> u64 {
+        let mut acc = self.len() as u64;
+        let mut i = 0;
+        while i < 3 {
+            if i < self.len() {
+                acc ^= (self.as_slice()[i] as u64) << (8 + 8 * i);
+            }
+            i += 1;
+        }
+        acc
+    }
+}
+
+#[repr(C)]
+pub struct RelocVecBlock {
+    vec: RelocatableVec<u8>,
+    data: [MaybeUninit<u8>; 3],
+}
+
+impl Reloc for RelocVecBlock {
+    unsafe fn mk(at: *mut Self) {
+        core::ptr::addr_of_mut!((*at).vec).write(RelocatableVec::new_uninit(3));
+        let alloc = BumpAllocator::new(NonNull::new(core::ptr::addr_of_mut!((*at).data) as *mut u8).unwrap(), 3);
+        assert!((*at).vec.init(&alloc).is_ok());
+    }
+    fn op(&mut self, code: u8, arg: u64) -> u64 {
+        match code & 3 {
+            0 => self.vec.push(arg as u8).is_ok() as u64,
+            1 => opt(self.vec.pop().map(|v| v as u64)),
+            2 => self.vec.insert((arg >> 8) as usize & 3, arg as u8).is_ok() as u64,
+            _ => opt(self.vec.remove((arg >> 8) as usize & 3).map(|v| v as u64)),
+        }
+    }
+    fn observe(&mut self) -> u64 {
+        let mut acc = self.vec.len() as u64;
+        let mut i = 0;
+        while i < 3 {
+            if i < self.vec.len() {
+                acc ^= (self.vec.as_slice()[i] as u64) << (8 + 8 * i);
+            }
+            i += 1;
+        }
+        acc
+    }
+}
+
+impl Reloc for FixedSizeQueue<u8, 2> {
+    unsafe fn mk(at: *mut Self) { at.write(Self::new()) }
+    fn op(&mut self, code: u8, arg: u64) -> u64 {
+        match code & 3 {
+            0 => self.push(arg as u8) as u64,
+            1 => opt(self.pop().map(|v| v as u64)),
+            2 => opt(self.push_with_overflow(arg as u8).map(|v| v as u64)) ^ 3,
+            _ => opt(self.peek().map(|v| *v as u64)) ^ 5,
+        }
+    }
+    fn observe(&mut self) -> u64 {
+        let l = self.len() as u64;
+        let a = opt(self.pop().map(|v| v as u64));
+        let b = opt(self.pop().map(|v| v as u64));
+        l ^ (a << 8) ^ (b << 24)
+    }
+}
+
+impl Reloc for StaticString<3> {
+    unsafe fn mk(at: *mut Self) { at.write(Self::new()) }
+    fn op(&mut self, code: u8, arg: u64) -> u64 {
+        match code & 3 {
+            0 => self.push(arg as u8).is_ok() as u64,
+            1 => opt(self.pop().map(|v| v as u64)),
+            2 => {
+                let idx = (arg >> 8) as usize & 3;
+                if idx <= self.len() { self.insert(idx, arg as u8).is_ok() as u64 } else { 9 }
+            }
+            _ => {
+                let idx = (arg >> 8) as usize & 3;
+                if idx < self.len() { opt(self.remove(idx).map(|v| v as u64)) } else { 9 }
+            }
+        }
+    }
+    fn observe(&mut self) -> u64 {
+        let mut acc = self.len() as u64;
+        let mut i = 0;
+        while i < 3 {
+            if i < self.len() {
+                acc ^= (self.as_bytes()[i] as u64) << (8 + 8 * i);
+            }
+            i += 1;
+        }
+        acc
+    }
+}
+
+impl Reloc for FixedSizeSlotMap<u8, 2> {
+    unsafe fn mk(at: *mut Self) { at.write(Self::new()) }
+    fn op(&mut self, code: u8, arg: u64) -> u64 {
+        let key = SlotMapKey::new((arg >> 8) as usize & 1);
+        match code & 3 {
+            0 => opt(self.insert(arg as u8).map(|k| k.value() as u64)),
+            1 => opt(self.remove(key).map(|v| v as u64)),
+            2 => opt(self.get(key).map(|v| *v as u64)) ^ 3,
+            _ => opt(self.next_free_key().map(|k| k.value() as u64)) ^ 5,
+        }
+    }
+    fn observe(&mut self) -> u64 {
+        let mut acc = self.len() as u64;
+        for (k, v) in self.iter() {
+            acc ^= ((*v as u64) + 1) << (8 + 8 * k.value());
+        }
+        acc
+    }
+}
+
+impl Reloc for FixedSizeFlatMap<u8, u8, 2> {
+    unsafe fn mk(at: *mut Self) { at.write(Self::new()) }
+    fn op(&mut self, code: u8, arg: u64) -> u64 {
+        let key = (arg >> 8) as u8 & 3;
+        match code & 3 {
+            0 => match self.insert(key, arg as u8) { Ok(_) => 1, Err(e) => 10 + e as u64 },
+            1 => opt(self.remove(&key).map(|v| v as u64)),
+            2 => opt(self.get(&key).map(|v| v as u64)) ^ 3,
+            _ => self.contains(&key) as u64 ^ 5,
+        }
+    }
+    fn observe(&mut self) -> u64 {
+        let mut acc = self.len() as u64;
+        let mut n = 0;
+        self.list_keys(|k| {
+            acc ^= ((*k as u64) + 1) << (8 + 8 * n);
+            n += 1;
+            iceoryx2_bb_elementary::CallbackProgression::Continue
+        });
+        acc
+    }
+}
+
+proof!(8, fn c14_index_queue() { relocation::<FixedSizeIndexQueue<2>, 3>(); canaries(); });
+proof!(8, fn c14_overflow_queue() { relocation::<FixedSizeSafelyOverflowingIndexQueue<2>, 3>(); canaries(); });
+proof!(8, fn c14_unique_index_set() { relocation::<UisUnderTest, 4>(); canaries(); });
+proof!(8, fn c14_robust_index_set() { relocation::<StaticRobustUniqueIndexSet<2>, 3>(); canaries(); });
+proof!(12, fn c14_bit_set() { relocation::<FixedSizeBitSet<10>, 3>(); canaries(); });
+proof!(8, fn c14_counting_bit_set() { relocation::<FixedSizeCountingBitSet<3>, 3>(); canaries(); });
+proof!(8, fn c14_container() { relocation::<ContainerUnderTest, 3>(); canaries(); });
+proof!(8, fn c14_static_vec() { relocation::<StaticVec<u8, 3>, 3>(); canaries(); });
+proof!(8, fn c14_relocatable_vec() { relocation::<RelocVecBlock, 3>(); canaries(); });
+proof!(8, fn c14_queue() { relocation::<FixedSizeQueue<u8, 2>, 3>(); canaries(); });
+proof!(8, fn c14_string() { relocation::<StaticString<3>, 3>(); canaries(); });
+proof!(8, fn c14_slot_map() { relocation::<FixedSizeSlotMap<u8, 2>, 3>(); canaries(); });
+proof!(8, fn c14_flat_map() { relocation::<FixedSizeFlatMap<u8, u8, 2>, 3>(); canaries(); });
+
+/// RelocatablePointer::as_ptr: the resolved target moves by exactly the placement delta
+proof!(4, fn c14_relocatable_pointer() {
+    #[repr(C)]
+    struct Blk {
+        ptr: RelocatablePointer<u8>,
+        data: [u8; 16],
+    }
+    let dist: usize = kani::any();
+    kani::assume(dist < 16);
+    let layout = Layout::new::<Blk>();
+    unsafe {
+        let a = alloc::alloc::alloc(layout) as *mut Blk;
+        core::ptr::addr_of_mut!((*a).ptr).write(RelocatablePointer::new_uninit());
+        let target = (core::ptr::addr_of_mut!((*a).data) as *mut u8).add(dist);
+        (*a).ptr.init(NonNull::new(target).unwrap());
+        *target = 0x5A;
+        assert!((*a).ptr.as_ptr() == target as *const u8);
+        let b = alloc::alloc::alloc(layout) as *mut Blk;
+        core::ptr::copy_nonoverlapping(a as *const u8, b as *mut u8, layout.size());
+        core::ptr::write_bytes(a as *mut u8, 0xFF, layout.size());
+        alloc::alloc::dealloc(a as *mut u8, layout);
+        let expect = (core::ptr::addr_of!((*b).data) as *const u8).add(dist);
+        assert!((*b).ptr.as_ptr() == expect, "c14: relocatable pointer does not follow its block");
+        assert!(*(*b).ptr.as_ptr() == 0x5A, "c14: relocated pointer does not reach its data");
+        alloc::alloc::dealloc(b as *mut u8, layout);
+    }
+    canaries();
+});
+
+/// negative control (must FAIL, checked by the driver): the bb-memory pool allocator keeps an
+/// absolute start address by design, so using a byte-copied instance must be flagged
+pub mod negative_control {
+    use super::*;
+    use iceoryx2_bb_elementary_traits::allocator::Allocate;
+    use iceoryx2_bb_memory::pool_allocator::FixedSizePoolAllocator;
+
+    #[repr(C)]
+    struct Blk {
+        alloc: FixedSizePoolAllocator<4>,
+        mem: [u64; 4],
+    }
+
+    proof!(10, fn c14_negative_control_absolute_pointer() {
+        let layout = Layout::new::<Blk>();
+        unsafe {
+            let a = alloc::alloc::alloc(layout) as *mut Blk;
+            let memp = core::ptr::addr_of_mut!((*a).mem) as *mut u8;
+            core::ptr::addr_of_mut!((*a).alloc).write(FixedSizePoolAllocator::<4>::new(
+                Layout::from_size_align(8, 8).unwrap(), NonNull::new(memp).unwrap(), 24));
+            let b = alloc::alloc::alloc(layout) as *mut Blk;
+            core::ptr::copy_nonoverlapping(a as *const u8, b as *mut u8, layout.size());
+            core::ptr::write_bytes(a as *mut u8, 0xFF, layout.size());
+            alloc::alloc::dealloc(a as *mut u8, layout);
+            let p = (*b).alloc.allocate(Layout::from_size_align(8, 8).unwrap()).unwrap();
+            let lo = core::ptr::addr_of!((*b).mem) as usize;
+            assert!(p.as_ptr() as usize >= lo && (p.as_ptr() as usize) < lo + 32, "c14(negative control): allocation outside the relocated block");
+        }
+    });
+}
